@@ -74,6 +74,8 @@ def level_segments(rnd, lvl):
     segments ('fixed': `--` and what follows it, a command name) keep their place"""
     named = []
     for it in lvl["named"]:
+        if not (it["shorts"] or it["longs"]):
+            continue            # an item without a name (environment only) cannot be typed
         for _ in range(count_for(rnd, it["arity"], it["kind"])):
             named.append(("named", it["id"], occurrence(rnd, it)))
     rnd.shuffle(named)
